@@ -41,7 +41,7 @@ class C07(Prop):
     id = "C07"
     lean_module = "NxsModel.Props.C07"
     rule = ("random configuration histories (enable/disable/divider/default/all + writes, 1..15 ops) on the real CommHandler "
-            "under the virtual-time runtime against the reference device, for channel counts 1..8 and 100..255, all four "
+            "(half of the histories through the NxscopeHandler wrappers called without their writenow argument) under the virtual-time runtime against the reference device, for channel counts 0..64 and 100..255, all four "
             "divider/ACK flag combinations, random initial device state (channels enabled, dividers set, stream left "
             "running), every request acknowledged; after every call the frames sent, client view, requested vector, "
             "device state and the client's device copy are compared with the model; also out-of-range channel ids and "
@@ -52,8 +52,12 @@ class C07(Prop):
 
     def cases(self, rng, tier):
         T = tier == "thorough"
+        # a device without channels: every write is a no-op (F18)
+        for flags in range(4):
+            yield f"cfg run {flags} - - W:a:a;A;D;N;W:a:a", "zero-channels"
+        yield "cfg run 3 - - e0;W:a:a;v5:0;W:a:a", "zero-channels"
         for it in range(600 if T else 110):
-            n = rng.choice([1, 2, 3, 4, 5, 8]) if it % 12 else rng.choice([100, 128, 200, 255])
+            n = rng.choice([1, 2, 3, 4, 5, 8, 16, 64]) if it % 12 else rng.choice([100, 127, 128, 200, 254, 255])
             flags = rng.randrange(4)
             en = [rng.random() < 0.4 for _ in range(n)]
             div = [rng.choice([0, 0, 3, 200]) for _ in range(n)]
@@ -68,7 +72,7 @@ class C07(Prop):
         h = zlib.crc32(line.encode())
         started = (h & 3) == 0
         rxp = [0, 0, 4, 16, 3, 8, 64, 255][(h >> 2) & 7]
-        out, info = sl.run_cfg_history(flags, en, div, ops, started=started, rxpadding=rxp)
+        out, info = sl.run_cfg_history(flags, en, div, ops, started=started, rxpadding=rxp, high=bool((h >> 5) & 1))
         if info.get("unaligned"):
             return "unaligned-write " + repr(info["unaligned"][:3])
         if info["errors"] or info["live_after"]:
@@ -82,9 +86,10 @@ class C07(Prop):
         flags, en, div, ops = parse_line(line)
         n = len(en)
         import zlib
-        rxp = [0, 0, 4, 16, 3, 8, 64, 255][(zlib.crc32(line.encode()) >> 2) & 7]
+        h = zlib.crc32(line.encode())
+        rxp = [0, 0, 4, 16, 3, 8, 64, 255][(h >> 2) & 7]
         try:
-            out, info = sl.run_cfg_history(flags, en, div, ops, started=True, rxpadding=rxp)
+            out, info = sl.run_cfg_history(flags, en, div, ops, started=True, rxpadding=rxp, high=bool((h >> 5) & 1))
         except Exception as e:
             return {"key": "session-raises", "what": f"{type(e).__name__}: {e}", "expected": "no exception", "observed": type(e).__name__}
         if info.get("unaligned"):
